@@ -376,7 +376,25 @@ Section Interp.
   (* the class's __init__: the base constructor, then the custom-type step; the `extensions`
      property of such a class is an ExtensionsProperty (the decorators add it; the translator
      refuses a world in which it is not) *)
-  Definition construct_full (c : ustring) (sch : schema) (m : list (ustring * val)) (h : heap) : heap * res :=
+  (* _STIXBase.__init__: `custom_props = kwargs.pop('custom_properties', {})` (must be a dict, only
+     read), then `assigned_properties = ChainMap(kwargs, custom_props)`: the keywords first *)
+  Definition merge_custom (h : heap) (m : list (ustring * val)) : option (list (ustring * val)) :=
+    match assoc (u "custom_properties") m with
+    | None => Some m
+    | Some (VR l) =>
+      match get h l with
+      | Some (NDict cpm) =>
+        let m0 := assoc_del (u "custom_properties") m in
+        Some (m0 ++ filter (fun kv => negb (mem_ustr (fst kv) (map fst m0))) cpm)
+      | _ => None
+      end
+    | Some (VA _) => None
+    end.
+
+  Definition construct_full (c : ustring) (sch : schema) (m0 : list (ustring * val)) (h : heap) : heap * res :=
+    match merge_custom h m0 with
+    | None => (h, RExc "ValueError")
+    | Some m =>
     bindv (construct_body c sch m h) (fun ov h1 =>
       match lookup c (with_ext W) with
       | None => (h1, RVal ov)
@@ -385,7 +403,8 @@ Section Interp.
         | Some (KExt _) => ext_step ext ov h1
         | _ => (h1, RExc "Unmodelled")
         end
-      end).
+      end)
+    end.
 
   (* MarkingDefinition.__init__ (v20/v21 common.py): when both definition_type and
      definition are given and the definition is not yet an instance of the marking class,
